@@ -390,7 +390,7 @@ func Scenarios(r *rand.Rand, n int) []Scenario {
 	return scs
 }
 
-var verdictRe = regexp.MustCompile(`^<<"VERDICT", "([^"]*)", "([^"]*)">>$`)
+var verdictRe = regexp.MustCompile(`^"VERDICT\|([^|]*)\|([^"]*)"$`)
 var confRe = regexp.MustCompile(`^<<"CONF", "([^"]*)">>$`)
 
 func Check(tier string) int {
